@@ -74,6 +74,12 @@ def parse_sidecar(path):
                         or s in ("keep_attrs", "selfmut", "literals", "strlits") or s.startswith("subst ") or s.startswith("delete ") or s.startswith("replace ") or s == "loopkinds" or s.startswith("loopkinds ")
                         or re.match(r"(fn|result|refpat) \w+$", s) is not None)
         if cur_site is not None and not is_directive:
+            # the text of a site is indented; a line in column 0 is sidecar-level: `#` starts a comment, anything else is a
+            # mistake (it would be injected into the code -- a `//` line swallowing the statement after it)
+            if raw[:1] not in (" ", "\t", ""):
+                if s.startswith("#"):
+                    continue
+                raise Undecided("%s:%d: unindented text inside a site (sidecar comments start with `#`): %r" % (path, ln, s[:80]))
             cur_site.append(raw)
             continue
         if not s or s.startswith("#"):
